@@ -22,6 +22,10 @@ def _mk(M, allow, tag):
 
 
 def cases(tier, rng, boost=1):
+    for n in range(3, 7):
+        for reps in (1, 2):
+            Mw = gen.normalise_counts(gen.block_diag([gen.wielandt(n)] + [[[1]]] * reps))
+            yield _mk([[float(v) for v in row] for row in Mw], True, 'wielandt+absorbing')
     for c, tag in gen.count_matrices(tier, rng, boost):
         M = gen.normalise_counts(c)
         if not M.any():
@@ -32,9 +36,15 @@ def cases(tier, rng, boost=1):
             yield _mk(Ml, False, tag)
 
 
+_BUFFERS = {}
+
+
 def real(case):
     import msmhelper as mh
-    M = np.array(case['M'], dtype=np.float64)
+    M0 = np.array(case['M'], dtype=np.float64)
+    # the same ndarray object is overwritten in place and passed again (a caller re-using a buffer)
+    M = _BUFFERS.setdefault(M0.shape, np.empty_like(M0))
+    np.copyto(M, M0)
 
     def run():
         p = mh.msm.peq(M, allow_non_ergodic=case['allow'])
